@@ -94,7 +94,12 @@ class StepOracle:
             N = float(np.sum(x))
             m1 = float(np.sum(x * R))
             m3 = float(np.sum(x * R ** 3))
-            volRatio = self.vmA / self.vmB[p]
+            vmB_now = self.vmB[p]
+            for k in range(int(getattr(model, "_vk_call", 0))):      # molar volume set again between solve calls (scenario key VmB_calls): the value in force
+                ch = (self.sc.get("VmB_calls") or [])[k] if k < len(self.sc.get("VmB_calls") or []) else None
+                if ch and str(p) in ch:
+                    vmB_now = molar_volume(ch[str(p)])
+            volRatio = self.vmA / vmB_now
             F = self.volume_factor(model, p)
             scaleN = float(np.sum(np.abs(x)))
             tolN = 64 * len(x) * EPS * max(scaleN, 1e-300)
